@@ -67,7 +67,11 @@ def run(ctx):
                       detail={"accepted_prefix": k - 1, "of": n, "event": ev}, files=[tf])
     rm = tlc.run_tlc("Threads", cfg="Threads_poly_handed_over.cfg", workdir=ctx.dir, workers=2)
     if rm.violated != "PolyProcAlive":
-        raise CheckBroken("the Threads model no longer shows the polynomial / processor lifetime hazard (D8): %r" % rm)
+        raise CheckBroken("design mutant 'a polynomial points at its creating thread's processor' (the pinned design, D8) not rejected: %r" % rm)
+    ctx.add("spec_mutants_rejected", 1)
+    r = tlc.run_tlc("Threads", cfg="Threads_poly_immortal.cfg", workdir=ctx.dir)
+    if not tlc.expect_ok(ctx, r, "Threads_poly_immortal"):
+        raise CheckBroken("Threads (handed-over polynomial, immortal processor) violates %s" % r.violated)
     # 2b. thread create / exit histories x object lifetimes: a Lagrange polynomial keeps (in its public precomp field) a pointer to the FFT processor of the thread
     #     that created it, and every operation writing the polynomial reads that processor.  Probe: polynomial created by a thread that exits, then used by the
     #     main thread; Trace_Threads decides by identity (PolyUse requires the recorded processor to be alive and still its creator's) - the outcome of the
